@@ -165,6 +165,15 @@ def main_c08(tier):
         n6 + [ev(1, "6U["), ev(1, "6Tx", [2]), ev(1, "6U]"), ev(1, "6Te", [2]), ev(1, "6Te", [1]), E],
     ]
     run_extra(ck, bdir, sys1({"O", "6"}), nested, "C08/nested-tasks/nanos6")
+    # the same nesting for nOS-V with task and body ids near the top of their range (ten digits each)
+    BT, BB = 2147483000, 2147483001
+    big = [
+        [X, J("VYc", [1, 5]), ev(1, "VTC", [BT, 1]), ev(1, "VAs"), ev(1, "VTx", [BT, BB]), ev(1, "VTe", [BT, BB]),
+         ev(1, "VAS"), E],
+        [X, J("VYc", [1, 5]), ev(1, "VTc", [BT, 1]), ev(1, "VAs"), ev(1, "VTx", [BT, 0]), ev(1, "VTe", [BT, 0]),
+         ev(1, "VAS"), E],
+    ]
+    run_extra(ck, bdir, sys1({"O", "V"}), big, "C08/nested-tasks/nosv-large-ids")
     ck.phase("nested_tasks")
     npairs = 0
     for model in ("nodes", "mpi", "tampi", "openmp", "nosv", "nanos6", "kernel"):
